@@ -496,6 +496,9 @@ func (C10Checker) Check(s *Step) []*Violation {
 					if c10AggregatedEntryDelete(ref, d, want, got) {
 						cause += "aggregated-entry-delete:"
 					}
+					if c10LoserCaseOnly(s, want, got) {
+						cause += "loser-case-residue:"
+					}
 					add("xml-differs", cause+tag+":"+ot+":"+c10EffectClass(want, got), fmt.Sprintf("XML (%s, %s) and the proto change denote different changes; resulting configuration\nonly with proto: %s\nonly with xml: %s\nproto deletes: %v\ndocument: %s", tag, ot, diffMaps(got, want), diffMaps(want, got), calls[i].Deletes, xs))
 				}
 			}
@@ -505,6 +508,49 @@ func (C10Checker) Check(s *Step) []*Violation {
 		}
 	}
 	return vs
+}
+
+// c10LoserCaseOnly: every path on which the two results differ belongs to a case of a choice that is not the case of
+// the highest-precedence live contribution (the device still carries nodes of a losing case, which is C08's recorded
+// subject; the views then disagree on what to do with the residue).
+func c10LoserCaseOnly(s *Step, want, got map[string]string) bool {
+	if s.ModelPost == nil {
+		return false
+	}
+	type win struct {
+		cas  string
+		prio int32
+	}
+	winners := map[string]win{}
+	for _, li := range s.ModelPost.Live {
+		for p := range li.Defined {
+			for _, sl := range choiceSlots(p) {
+				if w, ok := winners[sl.key()]; !ok || li.Prio < w.prio {
+					winners[sl.key()] = win{sl.cas, li.Prio}
+				}
+			}
+		}
+	}
+	n := 0
+	diff := func(a, b map[string]string) bool {
+		for p, v := range a {
+			if bv, ok := b[p]; ok && bv == v {
+				continue
+			}
+			n++
+			loser := false
+			for _, sl := range choiceSlots(p) {
+				if w, ok := winners[sl.key()]; !ok || w.cas != sl.cas {
+					loser = true
+				}
+			}
+			if !loser {
+				return false
+			}
+		}
+		return true
+	}
+	return diff(want, got) && diff(got, want) && n > 0
 }
 
 // c10AggregatedEntryDelete: the proto change deletes a whole list entry where the XML deletes leaves of that entry,
